@@ -304,6 +304,8 @@ def kind_branch(ctx: Ctx) -> List[Ob]:
                     if a_ is not None and norm(a_) in own and any(_is_kind_eq(n, {pn}) is not None for n in ast.walk(g.node)):
                         via_helper = True
         ok = bool(cmps) or bool(deleg) or via_helper
+        if not ok and any(isinstance(x, ast.Attribute) and x.attr in ("kind", "_kind") for x in ast.walk(f.node)):
+            ok = None  # the node's kind is used in a way this clause does not read (a matcher object, a table ...)
         T(f, f"{name}: the kind branch compares with the node's own kind (or delegates to a kind-aware query)", ok, "siblings of the same kind only")
     for name in ("prev_sibling", "next_sibling", "first_child", "last_child", "first_sibling", "last_sibling"):
         f = m.func(f"TypedNode.{name}")
@@ -327,6 +329,8 @@ def kind_branch(ctx: Ctx) -> List[Ob]:
         kind_ok = _kind_conds(atoms, {"self._kind", "self.kind"}) == [nv]
         self_ok = any(pol and norm(e) in (f"add_self or {nv} is not self", f"{nv} is not self or add_self") for e, pol in atoms)
         ok = kind_ok and self_ok and norm(g.iter) in ("self._parent._children", "self._parent.children") and norm(lc[0].value.elt) == nv
+        if not ok and norm(g.iter) not in ("self._parent._children", "self._parent.children"):
+            ok = None  # the comprehension filters something that was selected elsewhere
     T(f, "get_siblings: same kind, self excluded by identity unless add_self", ok, "")
     for name, idx in (("is_first_sibling", "0"), ("is_last_sibling", "-1")):
         f = m.func(f"TypedNode.{name}")
